@@ -206,7 +206,13 @@ var programmingLanguagesBlock = func() string {
 var modes = []struct {
 	name                       string
 	builders, converters, all7 bool
-}{{"types", false, false, true}, {"types+builders", true, false, false}, {"types+builders+converters", true, true, false}}
+	flagsOff                   bool
+}{{"types", false, false, true, false}, {"types+builders", true, false, false, false}, {"types+builders+converters", true, true, false, false},
+	// every per-language generation flag off (`- go: {}` ...): what the flags
+	// add must not hide what the plain generators do
+	{"types+builders/language-flags-off", true, false, false, true}}
+
+const flagsOffLanguagesBlock = "    - go: {package_root: 'verifgen/x'}\n    - java: {package_path: 'verifgen.x'}\n    - php: {namespace_root: 'Verifgen'}\n    - python: {}\n    - typescript: {}\n"
 
 func inputLine(format string) (line string, file string) {
 	switch format {
@@ -234,9 +240,15 @@ func pipelineCases(part, format, name, doc string, extra map[string]string, size
 			// special shapes only
 			continue
 		}
+		if m.flagsOff && strings.HasPrefix(name, "G:") {
+			continue
+		}
 		langs := programmingLanguagesBlock
 		if m.all7 {
 			langs = languagesBlock
+		}
+		if m.flagsOff {
+			langs = flagsOffLanguagesBlock
 		}
 		files := map[string]string{file: doc, "pipeline.yaml": pipelineYAML(in, "", true, m.builders, m.converters, false, langs)}
 		for k, v := range extra {
@@ -479,7 +491,7 @@ func main() {
 		}
 		var cs []*Case
 		for _, t := range cases {
-			cs = append(cs, &Case{Part: "c-config", Entry: "config", ID: "c/" + t.ID, Size: len(t.Doc) * 10, Req: Req{Op: "config", Files: t.Files}, Input: t.Doc})
+			cs = append(cs, &Case{Part: "c-config", Entry: "config", ID: "c/" + t.ID, Size: len(t.Doc) * 10, Req: Req{Op: "config", Files: t.Files, Extra: t.Extra, TimeoutMS: t.TimeoutMS}, Input: t.Doc})
 		}
 		sizes["c-config_templates"] = len(templates)
 		runPart("c-config", cs)
@@ -495,7 +507,16 @@ func main() {
 		// which special shapes do the parsers of this tree emit?
 		reachable := map[string]bool{}
 		var unreachable []string
+		var values, unbuildable []string
 		for _, o := range h.p.single(&Case{Part: "d-ir", Entry: "probe", ID: "d/probe", Req: Req{Op: "probe"}}) {
+			if o.St == "value" {
+				if strings.HasPrefix(o.Lang, "unbuildable:") {
+					unbuildable = append(unbuildable, o.Lang)
+				} else {
+					values = append(values, o.Lang)
+				}
+				continue
+			}
 			if o.St == "ok" && o.N == 1 {
 				reachable[o.Lang] = true
 			} else {
@@ -504,7 +525,9 @@ func main() {
 		}
 		sizes["d-ir_special_shapes_reachable_from_documents"] = len(reachable)
 		sizes["d-ir_special_shapes_not_reachable"] = unreachable
-		inputs := irSpace(r.Thorough(), reachable)
+		sizes["d-ir_value_triples_observed"] = values
+		sizes["d-ir_value_triples_not_built"] = unbuildable
+		inputs := irSpace(r.Thorough(), reachable, values)
 		stages := irStages()
 		var cases []*Case
 		for _, in := range inputs {
@@ -567,9 +590,12 @@ func main() {
 	for _, k := range sortedKeys(h.hangs) {
 		b := h.hangs[k]
 		ok := true
+		// confirmation runs always get the full 30 s
+		confirm := *b.c
+		confirm.Req.TimeoutMS = 0
 		for i := 0; i < 3 && ok; i++ {
 			ok = false
-			for _, o := range h.p.single(b.c) {
+			for _, o := range h.p.single(&confirm) {
 				if o.St == "hang" {
 					ok = true
 				}
